@@ -29,7 +29,7 @@ def _holder(cell):
 
 
 def build_design(desc):
-    from amaranth.hdl import Module, Signal, ClockSignal, ResetSignal, Instance, Const, DomainRenamer, MemoryData, MemoryInstance
+    from amaranth.hdl import Module, Signal, ClockSignal, ResetSignal, Instance, Const, DomainRenamer, EnableInserter, MemoryData, MemoryInstance
     from amaranth.lib.memory import Memory
     from vlib.gen_prog import build_program
     top = Module()
@@ -77,7 +77,11 @@ def build_design(desc):
                                  en=Const(1, 1))
             rmem.read_port(domain=sub["dom"], addr=y[0] if sub["w"] else Const(0, 1), data=rdata, en=Const(1, 1),
                            transparent_for=[wi])
-            m.submodules.rawmem = rmem
+            if sub.get("rawmem") == 2:
+                # the component that keeps it is wrapped in a control inserter, applied anew at every elaboration
+                m.submodules.rawmem = EnableInserter({sub["dom"]: x[0] if sub["w"] else Const(1, 1)})(_holder(rmem))
+            else:
+                m.submodules.rawmem = rmem
             ports.append(rdata)
         if sub.get("keeper"):
             # a component that keeps its ClockDomain object between elaborations and defines it in its module,
